@@ -29,6 +29,7 @@ TRUSTED_BASE = [
     'translator tools/py2coq.py + tools/gen.py (fail-closed symbolic interpreter of the Python AST); validated each run by parse-back evaluation of the generated Coq text against the running implementation',
     'real arithmetic stands for float arithmetic; np.matmul(d_d_varphi, .) is modelled as (D_phi .)/d_varphi_d_phi',
     'committed tables/*.json (dimension / sign of each public attribute)',
+    'checks whose obligations include theories/FloatOrder.v (C02, C12, C20) additionally rely on the standard library\'s specification axioms of primitive floats (Coq.Floats.FloatAxioms: ltb_spec, leb_spec, eqb_spec; in its RealSemantics module also abs_spec, Prim2SF_valid, SF2Prim_Prim2SF, Prim2SF_SF2Prim and, through Flocq/Reals, Classical_Prop.classic); the evidence field `axioms` lists what Print Assumptions reported',
 ]
 
 
@@ -138,7 +139,10 @@ def reflective(prop, tier, seed, oracle_module, level_note, extra_obligations=No
             problems.append('obligation %s fails: %s' % (r['file'], r['out'].strip()[-400:]))
     prims = axioms & coqbuild.PRIMITIVES
     axioms = axioms - coqbuild.PRIMITIVES
-    bad_ax = axioms - coqbuild.ALLOWED_AXIOMS
+    allowed = set(coqbuild.ALLOWED_AXIOMS)
+    if 'FloatOrder' in (theory_obligations or []):
+        allowed |= coqbuild.FLOAT_AXIOMS      # standard-library specification axioms of the primitive floats (Coq.Floats.FloatAxioms), FloatOrder.v only
+    bad_ax = axioms - allowed
     if bad_ax:
         problems.append('unexpected axioms: ' + ', '.join(sorted(bad_ax)))
     coqchk_info = None
@@ -283,11 +287,14 @@ def check_C02(tier, seed):
                       '(2) on the programs regenerated from _residual/_jacobian: residual(x+eps h) = residual(x) + eps J(x)h + eps^2 A + eps^3 B '
                       'for every state, direction, eps and linear differentiation operator; (3) sigma[0] = sigma0 and iotaN = iota + helicity*nfp '
                       'from the regenerated glue of solve_sigma_equation. NOT proved: agreement of iota with a shooting solution of the continuous '
-                      'ODE as nphi grows (a convergence theorem for pseudo-spectral collocation). Order facts about IEEE comparisons '
-                      '(ltb transitive/irreflexive, ltb-leb transitivity) are hypotheses of the Newton theorems, checked exhaustively on a float sample.',
-                      gprops=False, seq_obligations=['props/C02.v'], theory_obligations=['Newton'],
+                      'ODE as nphi grows (a convergence theorem for pseudo-spectral collocation; the harness compares with an independent DOP853 shooting solution and an independent winding number). The order facts about IEEE comparisons '
+                      '(ltb transitive / irreflexive, ltb-leb transitivity) that the generic Newton theorems assume are PROVED for binary64 primitive floats including NaN, infinities and signed zeros (theories/FloatOrder.v, from the '
+                      'standard library\'s specification axioms ltb_spec, leb_spec, eqb_spec of Coq.Floats.FloatAxioms), and the Newton theorems are instantiated on PrimFloat with no premise left.',
+                      gprops=False, seq_obligations=['props/C02.v'], theory_obligations=['Newton', 'FloatOrder'],
                       theorems=['C02_jacobian_exact', 'C02_sigma0_pinned', 'Newton.never_worse_than_initial', 'Newton.no_warning_means_best_small',
-                                'Newton.accepted_chain_decreasing', 'Newton.nan_always_warns'])
+                                'Newton.accepted_chain_decreasing', 'Newton.nan_always_warns',
+                                'FloatOrder.float_ltb_trans', 'FloatOrder.float_ltb_irrefl', 'FloatOrder.float_ltb_leb_trans', 'FloatOrder.newton_never_worse_float',
+                                'FloatOrder.newton_accepted_chain_decreasing_float', 'FloatOrder.newton_no_warning_means_best_small_float', 'FloatOrder.newton_nan_initial_float'])
 
 
 def check_C20(tier, seed):
@@ -304,8 +311,8 @@ def check_C20(tier, seed):
                       'Even n (theories/EvenKernel.v): over the reals 1/tan(pi/2) = 0, so the conditional even-n structure theorems hold outright; entry formula with cot, kernel form, exact differentiation of cos(p x) for p <= n/2 and sin(p x) for p < n/2, '
                       'exact interpolation of the same; the Nyquist sine (identically 0 on the grid) is annihilated by both, which is inherent to an even grid and stated explicitly (Dspec_even_nyquist_sin, interp_even_nyquist_sin). '
                       'NOT proved (harness only): Newton convergence on smooth well-posed systems; floats are idealised as reals in the exactness statements.',
-                      gprops=False, seq_obligations=[], theory_obligations=['Newton', 'DiffMat', 'Bracket', 'TrigSum', 'DiffKernel', 'InterpKernel', 'EvenKernel'],
-                      theorems=['EvenKernel.Dspec_even_entry', 'EvenKernel.Dspec_even_exact_trigpoly', 'EvenKernel.Dspec_even_nyquist_sin', 'EvenKernel.interp_even_is_kernel', 'EvenKernel.interp_even_exact_trigpoly', 'InterpKernel.interp_is_kernel', 'InterpKernel.interp_exact_trigpoly', 'InterpKernel.kinterp_node', 'InterpKernel.kinterp_continuous', 'InterpKernel.interp_replicates', 'DiffKernel.Dspec_entry', 'DiffKernel.Dspec_kernel', 'DiffKernel.Dspec_exact_cos', 'DiffKernel.Dspec_exact_sin', 'DiffKernel.Dspec_exact_trigpoly', 'DiffKernel.trigpoly_derive',
+                      gprops=False, seq_obligations=[], theory_obligations=['Newton', 'DiffMat', 'Bracket', 'TrigSum', 'DiffKernel', 'InterpKernel', 'EvenKernel', 'FloatOrder'],
+                      theorems=['FloatOrder.newton_never_worse_float', 'FloatOrder.newton_no_warning_means_best_small_float', 'FloatOrder.min_le_samples_float', 'FloatOrder.shift_invariance_of_decisions_float', 'EvenKernel.Dspec_even_entry', 'EvenKernel.Dspec_even_exact_trigpoly', 'EvenKernel.Dspec_even_nyquist_sin', 'EvenKernel.interp_even_is_kernel', 'EvenKernel.interp_even_exact_trigpoly', 'InterpKernel.interp_is_kernel', 'InterpKernel.interp_exact_trigpoly', 'InterpKernel.kinterp_node', 'InterpKernel.kinterp_continuous', 'InterpKernel.interp_replicates', 'DiffKernel.Dspec_entry', 'DiffKernel.Dspec_kernel', 'DiffKernel.Dspec_exact_cos', 'DiffKernel.Dspec_exact_sin', 'DiffKernel.Dspec_exact_trigpoly', 'DiffKernel.trigpoly_derive',
                                 'DiffKernel.Dspec_replicates', 'DiffMat.DR_antisym', 'DiffMat.DR_circulant', 'DiffMat.DR_rowsum', 'DiffMat.DR_shift', 'DiffMat.DR_rev',
                                 'Newton.never_worse_than_initial', 'Newton.accepted_chain_decreasing', 'Newton.no_warning_means_best_small'])
 
@@ -422,10 +429,12 @@ def check_C12(tier, seed):
                       'Jacobian coefficients (props/C12_jacobian.v): the code\'s g0, g1c, g20, g2c, g2s ARE the coefficients of the triple product e_r.(e_theta x e_phi) of the second-order position vector '
                       '(series algebra of C01_spec; pure algebra), no other harmonic occurs through r^3 except g1s, and g1s vanishes by the O(r^2) Jacobian identity of C01. For order-r3 objects the code still uses the '
                       'second-order position vector (the r^3 average of the full Jacobian is g20 + 4 lambda g0: C12_coefficients_r3), as the property states.',
-                      gprops=False, gprops_from=[('C08', rs), ('C07', rs)], seq_obligations=['props/C12_quartic.v', 'props/C04_spec.v', 'props/C01_spec.v', 'props/C01.v', 'props/C12_jacobian.v'], theory_obligations=['RootSelect', 'Series'],
+                      gprops=False, gprops_from=[('C08', rs), ('C07', rs)], seq_obligations=['props/C12_quartic.v', 'props/C04_spec.v', 'props/C01_spec.v', 'props/C01.v', 'props/C12_jacobian.v'], theory_obligations=['RootSelect', 'Series', 'FloatOrder'],
                       theorems=['C12_quartic', 'C12_K_relation', 'RootSelect.rc_is_sentinel_or_candidate', 'RootSelect.rc_minimal', 'RootSelect.no_candidate_sentinel',
                                 'RootSelect.rsing_min_le', 'RootSelect.quadratic_candidate_exact', 'RootSelect.linear_candidate_exact',
-                                'C12_jacobian.C12_coefficients_r2', 'C12_jacobian.C12_coefficients_r3', 'C12_jacobian.C12_jacobian_h0', 'C12_jacobian.C12_jacobian_hN', 'C12_jacobian.g1s_vanishes'])
+                                'C12_jacobian.C12_coefficients_r2', 'C12_jacobian.C12_coefficients_r3', 'C12_jacobian.C12_jacobian_h0', 'C12_jacobian.C12_jacobian_hN', 'C12_jacobian.g1s_vanishes',
+                                'FloatOrder.rc_minimal_float', 'FloatOrder.rc_minimal_quadratic_float', 'FloatOrder.r_singularity_minimal_float', 'FloatOrder.rsing_min_le_float', 'FloatOrder.rc_not_nan_float',
+                                'FloatOrder.float_ltb_negtrans', 'FloatOrder.float_ltb_negtrans_fails_with_nan'])
 
 
 def check_C06(tier, seed):
@@ -516,8 +525,8 @@ def check_C10(tier, seed):
 # hand-written theories each check depends on (others are not built, so work in progress elsewhere cannot disturb it)
 NEEDS = {
     'C08': ['Expr', 'Equiv', 'Dim'], 'C07': ['Expr', 'Equiv', 'Sign', 'Shift', 'Shallow', 'DiffMat'], 'C05': ['Expr', 'Equiv', 'Sign', 'Shift', 'Shallow', 'DiffMat'],
-    'C04': ['Expr', 'Shallow'], 'C11': ['Expr', 'Shallow', 'Series'], 'C13': ['Expr', 'Shallow', 'Quadrant', 'Winding'], 'C19': ['Expr', 'Equiv', 'Dim', 'Sign'], 'C17': ['Expr', 'Effects'], 'C12': ['Expr', 'Equiv', 'Dim', 'Sign', 'Shallow', 'RootSelect', 'Series'], 'C16': ['Expr', 'Effects', 'ObjModel'], 'C09': ['Expr', 'Shallow', 'Pipeline'], 'C03': ['Expr', 'Shallow', 'Pipeline'], 'C06': ['Expr', 'Equiv', 'Sign', 'Shift', 'Replicate', 'DiffMat', 'TrigSum', 'DiffKernel', 'Bracket', 'InterpKernel'], 'C14': ['Expr', 'Shallow', 'TrigSum'], 'C15': ['Expr', 'Shallow', 'TrigSum', 'VmecEmit'], 'C18': ['Expr', 'ObjModel'], 'C10': ['Expr', 'Shallow'], 'C01': ['Expr', 'Shallow', 'Series'], 'C02': ['Expr', 'Shallow', 'Newton'],
-    'C20': ['Expr', 'Equiv', 'Sign', 'Shift', 'Replicate', 'DiffMat', 'Newton', 'Bracket', 'TrigSum', 'DiffKernel', 'InterpKernel', 'EvenKernel'],
+    'C04': ['Expr', 'Shallow'], 'C11': ['Expr', 'Shallow', 'Series'], 'C13': ['Expr', 'Shallow', 'Quadrant', 'Winding'], 'C19': ['Expr', 'Equiv', 'Dim', 'Sign'], 'C17': ['Expr', 'Effects'], 'C12': ['Expr', 'Equiv', 'Dim', 'Sign', 'Shallow', 'RootSelect', 'Series', 'Newton', 'Bracket', 'FloatOrder'], 'C16': ['Expr', 'Effects', 'ObjModel'], 'C09': ['Expr', 'Shallow', 'Pipeline'], 'C03': ['Expr', 'Shallow', 'Pipeline'], 'C06': ['Expr', 'Equiv', 'Sign', 'Shift', 'Replicate', 'DiffMat', 'TrigSum', 'DiffKernel', 'Bracket', 'InterpKernel'], 'C14': ['Expr', 'Shallow', 'TrigSum'], 'C15': ['Expr', 'Shallow', 'TrigSum', 'VmecEmit'], 'C18': ['Expr', 'ObjModel'], 'C10': ['Expr', 'Shallow'], 'C01': ['Expr', 'Shallow', 'Series'], 'C02': ['Expr', 'Shallow', 'Newton', 'RootSelect', 'Bracket', 'FloatOrder'],
+    'C20': ['Expr', 'Equiv', 'Sign', 'Shift', 'Replicate', 'DiffMat', 'Newton', 'Bracket', 'RootSelect', 'TrigSum', 'DiffKernel', 'InterpKernel', 'EvenKernel', 'FloatOrder'],
 }
 CHECKS = {'C01': check_C01, 'C10': check_C10, 'C06': check_C06, 'C14': check_C14, 'C15': check_C15, 'C18': check_C18, 'C12': check_C12, 'C16': check_C16, 'C17': check_C17, 'C03': check_C03, 'C19': check_C19, 'C09': check_C09, 'C13': check_C13, 'C11': check_C11, 'C02': check_C02, 'C20': check_C20, 'C04': check_C04, 'C08': check_C08, 'C07': check_C07, 'C05': check_C05}
 
